@@ -154,6 +154,10 @@ func biasAlphabet(level int) []M {
 			out = append(out, bias("criteriaConcealment", withBounding(refStrategy(M{"randomSeed": 3}, s), b)))
 		}
 	}
+	// reference-criterion parameters left to their documented defaults / set to the other extreme: a parameter that
+	// leaked from one application into the next would show between these
+	out = append(out, bias("criteriaConcealment", M{"randomSeed": 3}), bias("criteriaConcealment", M{"randomSeed": 3, "newCriterionImportance": 1.0}),
+		bias("criteriaMixing", M{"randomSeed": 7}), bias("criteriaMixing", M{"randomSeed": 7, "newCriterionImportance": 1.0}))
 	for _, mr := range []float64{0, 0.5, 1} {
 		for s := 0; s < 3; s++ {
 			if level == 1 && s > 0 && mr != 0.5 {
@@ -223,3 +227,18 @@ func fmtPath(bs []M) string {
 }
 
 var _ = fmt.Sprint
+
+// negativeVariant makes criterion c1 strictly negative for every known alternative (observed range entirely below 0).
+func negativeVariant(root M) M {
+	r := asM(deepCopy(root))
+	for _, a := range asL(r["knownAlternatives"]) {
+		cm := asM(asM(a)["criteria"])
+		cm["c1"] = -asF(cm["c1"]) - 1
+	}
+	for _, c := range asL(r["criteria"]) {
+		if asS(asM(c)["id"]) == "c1" {
+			delete(asM(c), "valuesRange")
+		}
+	}
+	return M(r)
+}
